@@ -10,6 +10,9 @@ import MayVerif.Model.Queue.SpscReplay
 import MayVerif.Model.Runtime.JoinReplay
 import MayVerif.Model.Chan.MpscReplay
 import MayVerif.Model.Queue.SpmcReplay
+import MayVerif.Model.Sync.CondvarReplay
+import MayVerif.Model.Sync.BarrierReplay
+import MayVerif.Model.Sync.WaitGroupReplay
 open MayVerif
 
 def machines : List (String × Machine) := [
@@ -20,5 +23,8 @@ def machines : List (String × Machine) := [
   ("mq_spsc", MayVerif.Spsc.machine),
   ("join", MayVerif.Join.machine),
   ("ch_mpsc", MayVerif.Chan.Mpsc.machine),
-  ("mq_spmc", MayVerif.Spmc.machine)
+  ("mq_spmc", MayVerif.Spmc.machine),
+  ("condvar", MayVerif.Condvar.machine),
+  ("barrier", MayVerif.Barrier.machine),
+  ("waitgroup", MayVerif.WaitGroup.machine)
 ]
